@@ -8,6 +8,7 @@ import (
 	"fmt"
 	"os"
 	"strconv"
+	"strings"
 	"sync"
 	"sync/atomic"
 	"time"
@@ -183,6 +184,25 @@ func (r *Rec) Sample(v any) {
 func (r *Rec) Violation(key, msg string, replay any) {
 	r.mu.Lock()
 	defer r.mu.Unlock()
+	// "observed:" marks behaviour that the harness notices but that the property's statement does
+	// not speak about (an operation failing on well-formed input where the statement is a pure
+	// safety clause, a deadlock where the statement is about completed operations): counted and
+	// noted in the evidence, never a violation
+	if strings.HasPrefix(key, "observed:") {
+		k := key[len("observed:"):]
+		if i := strings.IndexByte(k, ' '); i > 0 {
+			k = k[:i]
+		}
+		r.p.Counters["observed_not_judged."+k]++
+		if r.p.Counters["observed_not_judged."+k] <= 2 {
+			m := msg
+			if len(m) > 300 {
+				m = m[:300] + "…"
+			}
+			r.note("observed, not judged (" + key[len("observed:"):] + "): " + m)
+		}
+		return
+	}
 	if r.vkeys[key] {
 		return
 	}
